@@ -7,7 +7,7 @@
     The theorems hold for every flag configuration with the listed repairs; [_refuted] theorems exhibit
     a witness for each missing repair (replayed on the implementation by harness/c12.py). *)
 From Coq Require Import NArith List Bool.
-From Pi2 Require Import ML.Syntax Py.Pattern Py.PatFacts Py.MetaFacts Py.ExpandFacts Py.Termination Py.Total Py.Witness.
+From Pi2 Require Import ML.Syntax Py.Pattern Py.PatFacts Py.MetaFacts Py.ExpandFacts Py.Termination Py.Total Py.Bridge Py.Current Py.Witness.
 Import ListNotations.
 Open Scope N_scope.
 
@@ -164,3 +164,87 @@ Theorem C12_refuted_mv_drop :
 Proof.
   exists drop_pat, drop_delta, 20%nat. eexists. split; [vm_compute; reflexivity|]. vm_compute. discriminate.
 Qed.
+
+(** ================================================================================================
+    The configuration the CURRENT code is in: [flags_current] = every repair applied, [f_mv_keep_subst = false]
+    (D9d: a metavariable drops a substitution on a variable it declares fresh; pinned by test_pattern.py).
+    On corner-free inputs (Py/Bridge.v: no metavariable anywhere in the inputs declares e_fresh/s_fresh a variable
+    in [se]/[ss], and every pending substitution of the inputs -- and the operation's own variable -- is on a
+    variable in [se]/[ss]) every operation returns the same result as under [flags_sound], and the results are
+    corner-free again ([C12_bridge_*]); so the theorems above hold for the current code on such inputs. *)
+Theorem C12_unconstrained_corner_free : forall se ss p, unconstrained p = true ->
+  (forall x, In x (etargets p) -> In x se) -> (forall x, In x (stargets p) -> In x ss) -> corner_free se ss p = true.
+Proof. exact unconstrained_corner_free. Qed.
+
+Theorem C12_bridge_py_eq : forall se ss f n a b, corner_free se ss a = true -> corner_free se ss b = true ->
+  py_eq f n a b = py_eq (with_keep f) n a b.
+Proof. exact py_eq_bridge. Qed.
+Theorem C12_bridge_py_inst : forall se ss f n p d, corner_free se ss p = true -> cfd se ss d = true ->
+  py_inst f n p d = py_inst (with_keep f) n p d.
+Proof. exact py_inst_bridge. Qed.
+Theorem C12_bridge_py_inst_preserves : forall se ss h n p d r, corner_free se ss p = true -> cfd se ss d = true ->
+  py_inst h n p d = Some r -> corner_free se ss r = true.
+Proof. exact py_inst_cf. Qed.
+Theorem C12_bridge_py_esubst : forall se ss f n p x pl, corner_free se ss p = true -> mem x se = true ->
+  corner_free se ss pl = true -> py_esubst f n p x pl = py_esubst (with_keep f) n p x pl.
+Proof. exact py_esubst_bridge. Qed.
+Theorem C12_bridge_py_ssubst : forall se ss f n p x pl, corner_free se ss p = true -> mem x ss = true ->
+  corner_free se ss pl = true -> py_ssubst f n p x pl = py_ssubst (with_keep f) n p x pl.
+Proof. exact py_ssubst_bridge. Qed.
+Theorem C12_bridge_py_fresh : forall se ss f n p x, corner_free se ss p = true ->
+  py_fresh f n p x = py_fresh (with_keep f) n p x.
+Proof. exact py_fresh_bridge. Qed.
+Theorem C12_bridge_expand : forall se ss f p, corner_free se ss p = true -> expand f p = expand (with_keep f) p.
+Proof. exact expand_eq. Qed.
+Theorem C12_bridge_hnf : forall se ss f n p, corner_free se ss p = true -> hnf f n p = hnf (with_keep f) n p.
+Proof. exact hnf_bridge. Qed.
+Print Assumptions C12_bridge_py_inst.
+
+Theorem C12_py_eq_expand_current_code : forall se ss n a b r,
+  corner_free se ss a = true -> corner_free se ss b = true ->
+  py_eq flags_current n a b = Some r -> r = pat_eqb (expand flags_current a) (expand flags_current b).
+Proof. exact (fun se ss => py_eq_expand_cur se ss flags_current eq_refl). Qed.
+Theorem C12_py_eq_total_current_code : forall se ss a b n,
+  corner_free se ss a = true -> corner_free se ss b = true -> (dm a one + dm b one <= n)%nat ->
+  py_eq flags_current n a b = Some (pat_eqb (expand flags_current a) (expand flags_current b)).
+Proof. exact (fun se ss => py_eq_total_cur se ss flags_current eq_refl). Qed.
+Theorem C12_inst_transparent_current_code : forall se ss n p d r,
+  corner_free se ss p = true -> cfd se ss d = true -> py_inst flags_current n p d = Some r ->
+  expand flags_current r = p_inst flags_current (expand flags_current p) (expand_delta flags_current d).
+Proof. exact (fun se ss => py_inst_expand_cur se ss flags_current eq_refl). Qed.
+Theorem C12_esubst_transparent_current_code : forall se ss n p x pl r,
+  corner_free se ss p = true -> mem x se = true -> corner_free se ss pl = true ->
+  py_esubst flags_current n p x pl = Some r ->
+  expand flags_current r = p_esubst flags_current (expand flags_current p) x (expand flags_current pl).
+Proof. exact (fun se ss => py_esubst_expand_cur se ss flags_current eq_refl). Qed.
+Theorem C12_ssubst_transparent_current_code : forall se ss n p x pl r,
+  corner_free se ss p = true -> mem x ss = true -> corner_free se ss pl = true ->
+  py_ssubst flags_current n p x pl = Some r ->
+  expand flags_current r = p_ssubst flags_current (expand flags_current p) x (expand flags_current pl).
+Proof. exact (fun se ss => py_ssubst_expand_cur se ss flags_current eq_refl). Qed.
+Theorem C12_simplify_transparent_current_code : forall se ss n p r, corner_free se ss p = true ->
+  simplify flags_current n p = Some r -> expand flags_current r = expand flags_current p.
+Proof. exact (fun se ss => simplify_expand_cur se ss flags_current eq_refl). Qed.
+Theorem C12_fresh_transparent_current_code : forall se ss n p x r, corner_free se ss p = true ->
+  py_fresh flags_current n p x = Some r -> r = e_fresh (expand flags_current p) x.
+Proof. exact (fun se ss => py_fresh_expand_cur se ss flags_current eq_refl eq_refl). Qed.
+Print Assumptions C12_py_eq_expand_current_code.
+
+(** non-vacuity: notation + unconstrained metavariables + a pending substitution on x1 ... *)
+Example C12_ex_current_unconstrained :
+  let a := and_p (pphi 0) (PESub (pphi 1) 1 (PEVar 2)) in
+  corner_free [1] [] a = true /\ unconstrained a = true /\
+  py_eq flags_current 30 a (embed (expand flags_current a)) = Some true /\
+  py_inst flags_current 30 a [(1, neg_p (PEVar 1))] =
+    Some (PInst and_def [(0, pphi 0); (1, PImp (PEVar 2) bot_def)]).
+Proof. vm_compute. repeat split; reflexivity. Qed.
+(** ... and a metavariable that declares x3 fresh while only x1 is ever substituted *)
+Example C12_ex_current_constrained :
+  let a := neg_p (PImp (PMVar 0 [3] [] [] [] []) (PESub (pphi 1) 1 (PEVar 2))) in
+  corner_free [1] [] a = true /\ unconstrained a = false /\
+  py_esubst flags_current 30 a 1 (PEVar 5) =
+    Some (PImp (PImp (PESub (PMVar 0 [3] [] [] [] []) 1 (PEVar 5)) (PESub (PESub (pphi 1) 1 (PEVar 2)) 1 (PEVar 5))) bot_def).
+Proof. vm_compute. repeat split; reflexivity. Qed.
+(** the D9d witness is exactly what the predicate excludes *)
+Example C12_ex_current_corner : corner_free [1] [] drop_pat = false.
+Proof. reflexivity. Qed.
